@@ -109,6 +109,16 @@ type builder struct {
 	cur      *Vertex // nil means unreachable
 	targets  *targets
 	labels   map[string]*lblock
+	ret      *retCtx // non-nil inside the spliced body of an immediately invoked literal
+}
+
+// retCtx says what a return statement means inside the body of an
+// immediately invoked function literal `func() T { ... }()` that is spliced
+// into the graph of the enclosing function (see splice).
+type retCtx struct {
+	t, f   *Vertex         // the literal is a branch condition: return X continues at t or f
+	cont   *Vertex         // the literal is a statement: return continues here
+	assign *ast.AssignStmt // ... after assigning the results to these operands (nil: results dropped)
 }
 
 // New builds the graph of body.
@@ -187,7 +197,17 @@ func (b *builder) label(name string) *lblock {
 func (b *builder) stmt(s ast.Stmt, lb *lblock) {
 	switch s := s.(type) {
 	case *ast.BadStmt, *ast.EmptyStmt:
-	case *ast.SendStmt, *ast.IncDecStmt, *ast.AssignStmt, *ast.GoStmt, *ast.DeclStmt:
+	case *ast.AssignStmt:
+		if len(s.Rhs) == 1 {
+			if lit := iife(s.Rhs[0]); lit != nil && spliceable(lit) {
+				cont := b.join()
+				b.splice(lit, &retCtx{cont: cont, assign: s})
+				b.cur = cont
+				return
+			}
+		}
+		b.add(KStmt, s)
+	case *ast.SendStmt, *ast.IncDecStmt, *ast.GoStmt, *ast.DeclStmt:
 		b.add(KStmt, s)
 	case *ast.DeferStmt:
 		b.add(KDefer, s)
@@ -198,6 +218,12 @@ func (b *builder) stmt(s ast.Stmt, lb *lblock) {
 			b.cur = nil
 			return
 		}
+		if lit := iife(s.X); lit != nil && spliceable(lit) {
+			cont := b.join()
+			b.splice(lit, &retCtx{cont: cont})
+			b.cur = cont
+			return
+		}
 		b.add(KStmt, s)
 	case *ast.LabeledStmt:
 		l := b.label(s.Label.Name)
@@ -205,6 +231,18 @@ func (b *builder) stmt(s ast.Stmt, lb *lblock) {
 		b.cur = l.gotoV
 		b.stmt(s.Stmt, l)
 	case *ast.ReturnStmt:
+		if len(s.Results) == 1 {
+			// return func() (T, error) { ... }(): the literal's returns are
+			// returns of the enclosing context
+			if lit := iife(s.Results[0]); lit != nil && spliceable(lit) {
+				b.splice(lit, b.ret)
+				return
+			}
+		}
+		if rc := b.ret; rc != nil {
+			b.spliced(s, rc)
+			return
+		}
 		v := b.add(KReturn, s)
 		b.edge(v, b.g.Exit, EPlain)
 		b.cur = nil
@@ -304,6 +342,23 @@ func (b *builder) cond(e ast.Expr, t, f *Vertex) {
 		if x.Op == token.NOT {
 			b.cond(x.X, f, t)
 			return
+		}
+	case *ast.CallExpr:
+		if lit := iife(x); lit != nil && spliceable(lit) && boolResult(lit) {
+			b.splice(lit, &retCtx{t: t, f: f})
+			return
+		}
+	case *ast.Ident:
+		// the constant conditions a spliced `return true` / `return false` yields
+		if b.ret != nil && x.Obj == nil {
+			switch x.Name {
+			case "true":
+				b.jump(t)
+				return
+			case "false":
+				b.jump(f)
+				return
+			}
 		}
 	}
 	v := b.add(KCond, e)
@@ -491,6 +546,130 @@ func (b *builder) rangeStmt(s *ast.RangeStmt, lb *lblock) {
 	b.targets = b.targets.tail
 	b.jump(head)
 	b.cur = done
+}
+
+// ---------------------------------------------------------------- literals
+
+// iife returns the literal of an immediately invoked function literal
+// without arguments, `func() T { ... }()`, or nil.
+func iife(e ast.Expr) *ast.FuncLit {
+	for {
+		p, ok := e.(*ast.ParenExpr)
+		if !ok {
+			break
+		}
+		e = p.X
+	}
+	call, ok := e.(*ast.CallExpr)
+	if !ok || len(call.Args) != 0 {
+		return nil
+	}
+	fun := call.Fun
+	for {
+		p, ok := fun.(*ast.ParenExpr)
+		if !ok {
+			break
+		}
+		fun = p.X
+	}
+	lit, _ := fun.(*ast.FuncLit)
+	if lit == nil || (lit.Type.Params != nil && len(lit.Type.Params.List) != 0) {
+		return nil
+	}
+	return lit
+}
+
+// IIFE is iife for other packages.
+func IIFE(e ast.Expr) *ast.FuncLit { return iife(e) }
+
+// Spliceable reports whether the body of an immediately invoked literal is
+// part of the graph of the enclosing function.
+func Spliceable(lit *ast.FuncLit) bool { return spliceable(lit) }
+
+// spliceable: the body of the literal means the same when it is executed as
+// part of the enclosing function: no defer / recover (they are tied to the
+// literal's own frame), no named results, no labels or goto.
+func spliceable(lit *ast.FuncLit) bool {
+	if lit.Type.Results != nil {
+		for _, f := range lit.Type.Results.List {
+			if len(f.Names) > 0 {
+				return false
+			}
+		}
+	}
+	ok := true
+	ast.Inspect(lit.Body, func(n ast.Node) bool {
+		switch x := n.(type) {
+		case *ast.FuncLit:
+			return false
+		case *ast.DeferStmt, *ast.LabeledStmt:
+			ok = false
+		case *ast.BranchStmt:
+			if x.Tok == token.GOTO {
+				ok = false
+			}
+		case *ast.CallExpr:
+			if id, isId := x.Fun.(*ast.Ident); isId && id.Name == "recover" {
+				ok = false
+			}
+		}
+		return ok
+	})
+	return ok
+}
+
+func boolResult(lit *ast.FuncLit) bool {
+	r := lit.Type.Results
+	if r == nil || len(r.List) != 1 || len(r.List[0].Names) > 1 {
+		return false
+	}
+	id, ok := r.List[0].Type.(*ast.Ident)
+	return ok && id.Name == "bool"
+}
+
+// splice builds the body of an immediately invoked literal in place; rc says
+// where its return statements lead (nil: they are returns of the function).
+func (b *builder) splice(lit *ast.FuncLit, rc *retCtx) {
+	savedRet, savedTargets, savedLabels := b.ret, b.targets, b.labels
+	b.ret, b.targets, b.labels = rc, nil, map[string]*lblock{}
+	b.stmtList(lit.Body.List)
+	if b.cur != nil {
+		// falling off the end of a literal without results
+		switch {
+		case rc == nil:
+			r := b.newV(KReturn, nil)
+			b.edge(b.cur, r, EPlain)
+			b.edge(r, b.g.Exit, EPlain)
+			b.cur = nil
+		case rc.cont != nil:
+			b.jump(rc.cont)
+		default:
+			b.cur = nil
+		}
+	}
+	b.ret, b.targets, b.labels = savedRet, savedTargets, savedLabels
+}
+
+// spliced lowers a return statement of a spliced literal.
+func (b *builder) spliced(s *ast.ReturnStmt, rc *retCtx) {
+	switch {
+	case rc.t != nil:
+		if len(s.Results) != 1 {
+			b.cur = nil
+			return
+		}
+		b.cond(s.Results[0], rc.t, rc.f)
+	case rc.assign != nil && len(s.Results) > 0:
+		// the results become the operands of the assignment the literal's
+		// value was used in
+		b.add(KStmt, &ast.AssignStmt{Lhs: rc.assign.Lhs, TokPos: s.Return, Tok: rc.assign.Tok, Rhs: s.Results})
+		b.jump(rc.cont)
+	default:
+		for _, r := range s.Results {
+			b.add(KStmt, &ast.ExprStmt{X: r})
+		}
+		b.jump(rc.cont)
+	}
 }
 
 // ---------------------------------------------------------------- queries
